@@ -52,6 +52,21 @@ impl<K, V> Cache<K, V> {
     }
 }
 
+#[cfg(feature = "verif")]
+impl<K, V> Cache<K, V> {
+    /// Number of slots.
+    pub fn num_slots(&self) -> usize {
+        self.data.len()
+    }
+    /// Read-only iterator over the occupied slots: (slot, key, value).
+    pub fn entries(&self) -> impl Iterator<Item = (usize, &K, &V)> {
+        self.data
+            .iter()
+            .enumerate()
+            .filter_map(|(i, e)| e.as_ref().map(|e| (i, &e.key, &e.value)))
+    }
+}
+
 impl<K, V> Cache<K, V>
 where
     K: MyHash,
